@@ -45,6 +45,8 @@ def cases(tier, seed):
         ("bloch-y2-nonuniform", (2, 3, 2), (1, 2, 1), "bloch", (0.4, 1.7, -0.6), "nonuniform"),
         ("bloch-pi-z2", (2, 2, 3), (1, 1, 2), "bloch", (0, 0, np.pi), "uniform"),
         ("periodic-xy2-mixedwalls", (2, 2, 3), (2, 2, 1), "periodic_xy_pec_z", (0, 0, 0), "uniform"),
+        # full (non-diagonal) tensors: the anisotropic branch averages across the wrap seam diagonally (edge/corner ghost cells)
+        ("bloch-xy2-fulltensor", (2, 2, 2), (2, 2, 1), "bloch", (1.3, -0.7, 0), "uniform"),
     ]
     if tier != "quick":
         base += [
@@ -52,9 +54,14 @@ def cases(tier, seed):
             ("periodic-y3-uniform", (2, 2, 2), (1, 3, 1), "periodic", (0, 0, 0), "uniform"),
             ("bloch-xz2-nonuniform", (2, 2, 2), (2, 1, 2), "bloch", (1.1, 0.5, -0.8), "nonuniform"),
             ("bloch-halfpi-y2", (2, 3, 2), (1, 2, 1), "bloch", (0, np.pi / 2, 0), "uniform"),
+            ("periodic-yz2-fulltensor", (2, 2, 2), (1, 2, 2), "periodic", (0, 0, 0), "uniform"),
+            ("bloch-xz2-fulltensor-nonuniform", (2, 2, 2), (2, 1, 2), "bloch", (0.8, 0.3, -1.1), "nonuniform"),
         ]
     for nm, shape, tile, kind, kL, grid in base:
-        out.append(dict(name=nm, shape=shape, tile=tile, kind=kind, kL=[float(v) for v in kL], grid=grid, T=T))
+        # full-tensor scenes: every output entry depends on ~27 neighbours per step; one step (quick) / two steps already
+        # exercise every edge and corner ghost cell, deeper runs are covered by the diagonal-material cases
+        TT = T if "fulltensor" not in nm else (1 if tier == "quick" else 2)
+        out.append(dict(name=nm, shape=shape, tile=tile, kind=kind, kL=[float(v) for v in kL], grid=grid, T=TT))
     return out
 
 
@@ -100,7 +107,11 @@ def run_case(c, case):
         bounds = case["kind"]
     L = [float(np.sum(w)) * SPACING if ws is not None else n * SPACING for w, n in zip(ws or [None] * 3, shape)]
     kvec = tuple(kl / l for kl, l in zip(case["kL"], L))
-    mat = fdtdx.Material(permittivity=(2.0, 3.0, 1.5), permeability=(1.5, 1.25, 2.0))
+    full = "fulltensor" in case["name"]
+    if full:
+        mat = fdtdx.Material(permittivity=((2.0, 0.3, 0.1), (0.3, 2.5, 0.2), (0.1, 0.2, 3.0)), permeability=((1.5, 0.1, 0.0), (0.1, 1.25, 0.05), (0.0, 0.05, 2.0)))
+    else:
+        mat = fdtdx.Material(permittivity=(2.0, 3.0, 1.5), permeability=(1.5, 1.25, 2.0))
     S1 = build_scene(shape, bounds, steps=T, widths=ws, bloch_vector=kvec, background=mat, thickness=1, spacing=SPACING)
     S2 = build_scene(sshape, bounds, steps=T, widths=wss, bloch_vector=kvec, background=mat, thickness=1, spacing=SPACING)
     cplx = np.iscomplexobj(np.asarray(S1["arrays"].fields.E))
@@ -117,8 +128,17 @@ def run_case(c, case):
 
     E, H = masked("E", zE), masked("H", zH)
     c.symvars += (E.size + H.size) * (2 if cplx else 1)
-    ie = np.round(rng.uniform(0.3, 1.0, size=np.shape(S1["arrays"].inv_permittivities)), 3)
-    im = np.round(rng.uniform(0.4, 1.0, size=np.shape(S1["arrays"].inv_permeabilities)), 3)
+    if full:
+        # per-cell symmetric positive definite perturbations of the placed inverse tensors
+        def spd(ref):
+            ref = np.asarray(ref)
+            pert = rng.uniform(-0.03, 0.03, size=(3, 3) + ref.shape[1:])
+            pert = (pert + np.swapaxes(pert, 0, 1)) / 2
+            return np.round(ref + pert.reshape(ref.shape), 3)
+        ie, im = spd(S1["arrays"].inv_permittivities), spd(S1["arrays"].inv_permeabilities)
+    else:
+        ie = np.round(rng.uniform(0.3, 1.0, size=np.shape(S1["arrays"].inv_permittivities)), 3)
+        im = np.round(rng.uniform(0.4, 1.0, size=np.shape(S1["arrays"].inv_permeabilities)), 3)
     from fractions import Fraction
     # exact unit-modulus rational phase per axis (1 where k = 0); the placed scenes get the matching k vector
     exact_phase = []
